@@ -37,7 +37,8 @@ VIEWS = ['textures', 'texinfo', 'planes', 'vertexes', 'surfedges', 'primitives',
          'detail_props', 'ents']
 # features a generated world may contain; a failing world is shrunk to the features it needs
 FEATURES = ['shape_detail', 'sprite_detail', 'model_detail', 'water', 'tail_overlap', 'fresh_objects', 'shared_objects',
-            'long_names', 'hdr', 'physics', 'outputs', 'special_text', 'big_runs', 'hi_bytes', 'many', 'float_bounds']
+            'long_names', 'hdr', 'physics', 'outputs', 'special_text', 'big_runs', 'hi_bytes', 'many', 'float_bounds',
+            'near_duplicates']
 
 
 def make_base(src_bsp: str, dst: str) -> None:
@@ -153,15 +154,54 @@ class Gen:
         for _ in range(1 + self.n(r)):
             texinfo.append(B.TexInfo(self.vec(r), self.fl(r), self.vec(r), self.fl(r), self.vec(r), self.fl(r), self.vec(r), self.fl(r),
                                      SurfFlags(r.choice([0, 1, 0x80, r.getrandbits(31)])), r.choice(texdata)))
+        if 'near_duplicates' in F:
+            # DISTINCT objects that agree with an existing one in part of their attributes (or in all of them): every one
+            # must keep its own record, whatever the writer's index tables use as key.  (A separate generator, so that the
+            # world without the feature is unchanged.)
+            rd = self.rng('near_dup_tex')
+            for _ in range(1 + rd.randint(0, 2)):
+                src = rd.choice(texdata)
+                k = rd.random()
+                if k < 0.4:      # same material, own reflectivity and size
+                    cp = B.TexData(src.mat, self.vec(rd), rd.randint(0, 4096), rd.randint(0, 4096))
+                elif k < 0.6:    # same material and size, own reflectivity
+                    cp = B.TexData(src.mat, self.vec(rd), src.width, src.height)
+                elif k < 0.8:    # same material and reflectivity, own size
+                    cp = B.TexData(src.mat, src.reflectivity.copy(), src.width + 1, src.height)
+                else:            # equal in every attribute
+                    cp = B.TexData(src.mat, src.reflectivity.copy(), src.width, src.height)
+                texdata.append(cp)
+                ti = rd.choice(texinfo)
+                # a texinfo with the vectors of an existing one that points at the copy, and one that differs only in its flags
+                texinfo.insert(rd.randint(0, len(texinfo)),
+                               B.TexInfo(ti.s_off.copy(), ti.s_shift, ti.t_off.copy(), ti.t_shift, ti.lightmap_s_off.copy(), ti.lightmap_s_shift,
+                                         ti.lightmap_t_off.copy(), ti.lightmap_t_shift, ti.flags, cp))
+                texinfo.append(B.TexInfo(ti.s_off.copy(), ti.s_shift, ti.t_off.copy(), ti.t_shift, ti.lightmap_s_off.copy(), ti.lightmap_s_shift,
+                                         ti.lightmap_t_off.copy(), ti.lightmap_t_shift, SurfFlags(ti.flags.value ^ 1), rd.choice(texdata)))
         w['textures'] = list(names) if r.random() < 0.7 else names[:1]
         w['texinfo'] = texinfo
         r = self.rng('planes')
         planes = [B.Plane(self.vec(r), self.fl(r), B.PlaneType(r.randint(0, 5))) for _ in range(1 + self.n(r))]
+        if 'near_duplicates' in F:
+            rd = self.rng('near_dup_planes')
+            for _ in range(1 + rd.randint(0, 2)):
+                src = rd.choice(planes)
+                k = rd.random()
+                planes.insert(rd.randint(0, len(planes)),
+                              B.Plane(src.normal.copy(), self.fl(rd), src.type) if k < 0.3 else         # same normal, own distance
+                              B.Plane(self.vec(rd), src.dist, src.type) if k < 0.5 else                 # same distance, own normal
+                              B.Plane(src.normal.copy(), src.dist, B.PlaneType((src.type.value + 1) % 6)) if k < 0.75 else   # own type only
+                              B.Plane(src.normal.copy(), src.dist, src.type))                           # equal in every attribute
         w['planes'] = planes
         r = self.rng('verts')
         verts = [self.vec(r) for _ in range(2 + self.n(r))]
         if r.random() < 0.5:
             verts.insert(r.randint(0, len(verts)), Vec())
+        if 'near_duplicates' in F:
+            rd = self.rng('near_dup_verts')
+            for _ in range(1 + rd.randint(0, 2)):
+                src = rd.choice(verts)
+                verts.insert(rd.randint(0, len(verts)), src.copy() if rd.random() < 0.5 else Vec(src.x, src.y, self.fl(rd)))
         w['vertexes'] = verts
 
         def fresh(kind: str, rr: random.Random) -> bool:
@@ -177,6 +217,12 @@ class Gen:
                 a = self.vec(r) if fresh('v', r) else r.choice(verts)
                 b_ = self.vec(r) if fresh('v', r) else r.choice(verts)
                 surf.append(B.Edge(a, b_))
+        if 'near_duplicates' in F and surf:
+            rd = self.rng('near_dup_edges')
+            for _ in range(1 + rd.randint(0, 2)):
+                src = rd.choice(surf)
+                if type(src) is B.Edge:      # a second edge between the same two vertex objects / sharing one end
+                    surf.insert(rd.randint(0, len(surf)), B.Edge(src.a, src.b) if rd.random() < 0.5 else B.Edge(src.a, rd.choice(verts)))
         w['surfedges'] = surf
 
         def sublist(rr: random.Random, table: list, make: Callable[[], Any], tag: str) -> list:
@@ -395,6 +441,11 @@ class Gen:
         vnum = 7 if ver.is_lightmap else ver.version
         props = []
         mdl_names = [self.name(r, 100) for _ in range(3)]
+        if 'near_duplicates' in F:
+            # model names that differ only in case / only in their last character: each is its own dictionary entry
+            rd = self.rng('near_dup_models')
+            src = rd.choice(mdl_names)
+            mdl_names += [src.swapcase() if src.swapcase() != src else src + 'X', src[:-1] + ('a' if src[-1] != 'a' else 'b')]
         for _ in range(self.n(r)):
             p = B.StaticProp(r.choice(mdl_names), self.vec(r), Angle(self.ang(r), self.ang(r), self.ang(r)))
             p.visleafs = set(r.sample(leafs, r.randint(0, min(3, len(leafs)))))
